@@ -5,10 +5,15 @@ import PpciVerif.Proofs.Dom
 /-!
 Proofs about the dominator-tree part of `Model.Dom` (core Lean only).
 
-Part 1 (this section): a forest given by children lists `ch`; the recursive
-traversal `sub` (nodes below `v`), `numRec` (recursive numbering); the worklist
-loop `numLoop` of the code computes `numRec` (`numLoop_sim`); the intervals
-assigned by `numRec` are laminar: nested ⇔ descendant (`numRec_laminar`).
+Part 1  forests given by children lists `ch`: the recursive traversal (`sub` = nodes below `v` in
+        discovery order, `post` = in finishing order, `numRec` = recursive numbering);
+        the worklist loop of `_number_dominator_tree` computes `numRec` (`numLoop_sim`), the worklist loop
+        of `bottom_up` yields `post` (`buLoop_sim`); the intervals assigned by `numRec` are laminar:
+        nested ⇔ descendant (`numRec_lam`, `lam_tests`).
+Part 2  the dominator tree: children lists built from the path-defined idom map form a forest of height
+        ≤ n whose subtrees are duplicate-free (`fits_all`, `sub_nodup`); descendant ⇔ dominance
+        (`desc_iff_dom`); `numberTree_correct`; Cytron's recurrence (`cytron`); the model of
+        `calculate_dominance_frontier` computes exactly `InDF` (`dominanceFrontier_correct`).
 -/
 namespace Proofs.DomTree
 open Model.Dom Spec.Graph Proofs.Graph Proofs.Dom
@@ -1009,7 +1014,7 @@ theorem cytronLoop_post (hwf : g.WF) (hall : ∀ v, v < g.n → Reach g e v) :
     · rw [post_succ, cytronLoop_append, e1]
       simp only [Option.bind_some, cytronLoop, hnode]
     · intro x hx
-      rw [List.mem_cons, not_or] at hx
+      rw [sub_succ, List.mem_cons, not_or] at hx
       rw [getD_set_ne df1 v x (some m) none (fun hc => hx.1 hc.symm), f1 x hx.2]
     · intro x hx
       rcases List.mem_cons.1 hx with hx | hx
